@@ -116,7 +116,7 @@ PROPS = {
                 trusted=['tools/genx_config.py (fail-closed translation of define_blockshape*, order check of the run() methods)',
                          'coq/Lib/PyConfig.v: Python numbers as exact rationals with explicit ZeroDivisionError; agreement of exact Q with CPython binary64 checked on every correspondence case'],
                 assumptions=['"raises before creating the output" is the generator AST order check plus the file oracle, not a theorem about conversion.py']),
-    'C06': dict(gen_targets=['Export'] + READER_TARGETS, pins=pins_of('C06'), harness='export.py',
+    'C06': dict(gen_targets=['Export', 'Reblock'] + READER_TARGETS, pins=pins_of('C06'), harness='export.py',
                 trusted=['tools/genx_export.py (fail-closed extraction of convert_to_segy / write_segy / regenerate_trace_header: spec fields, operation order, index expressions, format-code bytes, header overrides)',
                          'hand model of segyio (create, capacity, bulk put, file layout, trace-0 offset on reopen) in coq/Model/Export.v, checked by correspondence'],
                 assumptions=['segyio numerics: IEEE exact, IBM within relative 2^-20: a property of segyio C code, validated on every sample, not proved',
@@ -145,7 +145,7 @@ PROPS = {
                          'hand semantics of struct pack/unpack, numpy intc wrap, segyio sample formula arange(n)*(dt/1000.0)+t0'],
                 assumptions=['sample axis: proved on the finite domain zs_dom written in each statement (all intervals 1..65535 us at start 0; start times -32768..32767 ms for interval 1001 us; ...); other float combinations are sampled by the harness',
                              'D26 (NumPy route: Python list axes raise AttributeError before anything is written; fractional start time truncated) recorded as a note']),
-    'C12': dict(gen_targets=['Reblock', 'Reader', 'Utils', 'Version'], pins=pins_of('C12'), harness='reblock.py',
+    'C12': dict(gen_targets=['Reblock', 'Export', 'Reader', 'Utils', 'Version'], pins=pins_of('C12'), harness='reblock.py',
                 trusted=['tools/genx_reblock.py (fail-closed extraction of the asserts, header patches, loop bounds, i_count/x_count, seek offsets, slices, footer writes of convert_to_adv_sgz)',
                          'hand model coq/Model/Reblock.v: bytearray slice assignment as a length-changing splice, file reads short at end of file, struct.pack ranges'],
                 assumptions=['decoded floats abstract (unit-locality)', 'a fresh converter object (no earlier header reads on it: C15)', 'numpy frombuffer/tobytes byte round trip of footer arrays checked by the harness only']),
